@@ -241,61 +241,88 @@ def finish (c : Cfg) (s : State) (l : Loc) (ntf : List Ntfn) : State × List Ntf
   let s := if l.recvCp then { s with ncp := findNextCp c.cps l.finalHeight } else s
   ({ s with htip := ⟨l.finalId, l.finalHeight⟩ }, ntf)
 
+/-- the checkpoint test both arms fall through to.  `some r`: the handler is done with
+result `r` (`break` at a verified checkpoint, or mismatch: roll back to the previous
+checkpoint, disconnect, re-anchor); `none`: go on with the next header. -/
+def cpTest (c : Cfg) (p h : Nat) (s : State) (l : Loc) (ntf : List Ntfn) (nodeHeight : Nat) :
+    Option (State × List Ntfn) :=
+  match s.ncp with
+  | some cp =>
+    if nodeHeight = cp.height then
+      if h = cp.id then some (finish c s { l with recvCp := true } ntf)     -- `break`
+      else
+        let r := s.rollBackTo (findPrevCp c.cps nodeHeight).height
+        some ({ r.1 with peers := disconnect r.1.peers p, hl := anchor r.1.log }, ntf ++ r.2)
+    else none
+  | none => none
+
+/-- what the non-connecting branch decides about header `h` (followed by `rest`) -/
+inductive Reorg where
+  | ignore                      -- return silently
+  | skip                        -- `continue`
+  | disconnect                  -- disconnect the peer and return
+  | adopt (backHeight : Nat)    -- reorganise onto `h`, whose parent is stored at `backHeight`
+deriving DecidableEq, Repr
+
+def reorgDecision (c : Cfg) (s : State) (p : Nat) (prev : Node) (h : Nat) (rest : List Nat) : Reorg :=
+  if s.sync != some p && !synced c s then .ignore
+  else if h = prev.id then .skip
+  else if h ∈ s.log then .skip
+  else
+    match (c.tbl.parent h).bind (idxOf s.log) with
+    | none => .disconnect
+    | some backHeight =>
+      -- floor: the newest checkpoint at or below the tip (repair of F3: `prevNode.Height+1`)
+      if backHeight < (findPrevCp c.cps (prev.height + 1)).height then .disconnect
+      else if !(h :: rest).all c.tbl.valid then .disconnect
+      else
+        let total := sumWork c.tbl (h :: rest)
+        let known := knownWalk c.tbl s.log (prev.height - backHeight) s.hl prev.id 0
+        if known > total then .disconnect
+        else if known = total then .ignore
+        else .adopt backHeight
+
+/-- the reorganisation itself: new sync peer, roll back to the fork point, write the
+first header of the branch at once, reset the in-memory list to fork point + that header. -/
+def doReorg (c : Cfg) (s : State) (p h backHeight : Nat) : State × List Ntfn :=
+  let r := { s with sync := some p }.rollBackTo backHeight
+  let s := r.1.write (backHeight + 1) [h]
+  ({ s with hl := hlPush c.win (hlReset ⟨(c.tbl.parent h).getD 0, backHeight⟩) ⟨h, backHeight + 1⟩ }, r.2)
+
+def pushBatch (l : Loc) (h nh : Nat) : Loc :=
+  if l.batch = [] then { l with batch := [h], batchFirst := nh, finalHeight := nh }
+  else { l with batch := l.batch ++ [h], finalHeight := nh }
+
 /-- the loop over `msg.Headers`; the argument is the not yet processed part
 (`msg.Headers[i:]`, which is what the reorganisation arm validates and weighs). -/
 def loop (c : Cfg) (p : Nat) : List Nat → State → Loc → List Ntfn → State × List Ntfn
   | [], s, l, ntf => finish c s l ntf
   | h :: rest, s, l, ntf =>
-    let l := { l with finalId := h }
     match s.hl.head? with
     | none => ({ s with peers := disconnect s.peers p }, ntf)
     | some prev =>
-      -- `checkpoint` is the test both arms fall through to
-      let checkpoint (s : State) (l : Loc) (ntf : List Ntfn) (nodeHeight : Nat) : State × List Ntfn :=
-        match s.ncp with
-        | some cp =>
-          if nodeHeight = cp.height then
-            if h = cp.id then finish c s { l with recvCp := true } ntf     -- `break`
-            else
-              let (s, d) := s.rollBackTo (findPrevCp c.cps nodeHeight).height
-              ({ s with peers := disconnect s.peers p, hl := anchor s.log }, ntf ++ d)
-          else loop c p rest s l ntf
-        | none => loop c p rest s l ntf
       if c.tbl.parent h = some prev.id then
         -- connect arm (never looks at who sent it)
         if !c.tbl.valid h then
           ({ s with peers := disconnect s.peers p, hl := anchor s.log }, ntf)
         else
           let nh := prev.height + 1
-          let l := if l.batch = [] then { l with batch := [h], batchFirst := nh } else { l with batch := l.batch ++ [h] }
-          let l := { l with finalHeight := nh }
-          let s := { s with peers := updLast s.peers p nh, hl := hlPush c.win s.hl ⟨h, nh⟩ }
-          checkpoint s l ntf nh
+          let l' := pushBatch { l with finalId := h } h nh
+          let s' := { s with peers := updLast s.peers p nh, hl := hlPush c.win s.hl ⟨h, nh⟩ }
+          match cpTest c p h s' l' ntf nh with
+          | some r => r
+          | none => loop c p rest s' l' ntf
       else
-        if s.sync != some p && !synced c s then (s, ntf)
-        else if h = prev.id then loop c p rest s l ntf
-        else if h ∈ s.log then loop c p rest s l ntf
-        else
-          match (c.tbl.parent h).bind (idxOf s.log) with
-          | none => ({ s with peers := disconnect s.peers p }, ntf)
-          | some backHeight =>
-            let backHead := (c.tbl.parent h).getD 0
-            -- floor: the newest checkpoint at or below the tip (repair of F3: `prevNode.Height+1`)
-            if backHeight < (findPrevCp c.cps (prev.height + 1)).height then
-              ({ s with peers := disconnect s.peers p }, ntf)
-            else if !(h :: rest).all c.tbl.valid then
-              ({ s with peers := disconnect s.peers p }, ntf)
-            else
-              let total := sumWork c.tbl (h :: rest)
-              let known := knownWalk c.tbl s.log (prev.height - backHeight) s.hl prev.id 0
-              if known > total then ({ s with peers := disconnect s.peers p }, ntf)
-              else if known = total then (s, ntf)
-              else
-                let s := { s with sync := some p }
-                let (s, d) := s.rollBackTo backHeight
-                let s := s.write (backHeight + 1) [h]
-                let s := { s with hl := hlPush c.win (hlReset ⟨backHead, backHeight⟩) ⟨h, backHeight + 1⟩ }
-                checkpoint s l (ntf ++ d) 0       -- (!) `node.Height` is still 0 here
+        match reorgDecision c s p prev h rest with
+        | .ignore => (s, ntf)
+        | .skip => loop c p rest s { l with finalId := h } ntf
+        | .disconnect => ({ s with peers := disconnect s.peers p }, ntf)
+        | .adopt backHeight =>
+          let r := doReorg c s p h backHeight
+          -- (!) `node.Height` is still 0 when the checkpoint test runs after a reorganisation
+          match cpTest c p h r.1 { l with finalId := h } (ntf ++ r.2) 0 with
+          | some r' => r'
+          | none => loop c p rest r.1 { l with finalId := h } (ntf ++ r.2)
 
 def handleHeaders (c : Cfg) (s : State) (p : Nat) (hs : List Nat) : State × List Ntfn :=
   if hs = [] then (s, [])
